@@ -36,6 +36,14 @@ INPUTS = {
     "type_error": ([("main.pn", "fn main() -> i32\n{\n\tvar x: i32 = true;\n\treturn: x\n}\n")], False, [504]),
     "error_in_second_module": ([("app.pn", USES_LIB % 1), ("lib.pn", "pub fn twice(x: i32) -> i32\n{\n\treturn: x + y\n}\n")], False, [402]),
     "unicode_error_line": ([("main.pn", "// é€ 日本\nfn main() -> i32\n{\n\tvar x: u8 = -1u8;\n\treturn: 0\n}\n")], False, [550]),
+    # embedded libraries named as a single file of the library, and a library that is imported but not named
+    "valid_vendor_file": ([("main.pn", "import \"vendor:libc/string.pn\";\n\nfn main() -> i32\n{\n\tvar buffer = \"Hallo\\0\";\n"
+                            "\tmemcpy(&buffer, \"Heeeeeee\", 2);\n\tvar target = \"Hello\";\n\tvar diff = memcmp(buffer, target, |target|);\n"
+                            "\treturn: diff + 7\n}\n"), ("vendor:libc/string.pn", None)], True, 7),
+    "valid_core_file": ([("main.pn", "import \"core:text/char.pn\";\n\nfn main() -> i32\n{\n\tvar r: i32 = 5;\n\tif is_control_char(0) == false\n"
+                          "\t{\n\t\tr = -1;\n\t}\n\treturn: r\n}\n"), ("core:text/char.pn", None)], True, 5),
+    "unnamed_core_library": ([("main.pn", "import \"core:text/char.pn\";\n\nfn main() -> i32\n{\n\tvar r: i32 = 5;\n"
+                               "\tif is_control_char(0) == false\n\t{\n\t\tr = -1;\n\t}\n\treturn: r\n}\n")], False, [477]),
     "missing_file": ([], False, None),
     "empty_file": ([("main.pn", "")], False, [101]),
 }
@@ -64,8 +72,15 @@ def make_backend(d, ident, status=0):
     return p
 
 
+def embedded_source(key):
+    scheme, sub = key.split(":", 1)
+    with open(os.path.join(common.REPO, scheme, sub), encoding="utf-8") as f:
+        return f.read()
+
+
 def library_view(files):
     """What the library says about these sources (verdict, per-module IR)."""
+    files = [(p, s if s is not None else embedded_source(p)) for p, s in files]
     k, r = common.call({"op": "alpha_compile", "files": [{"path": p, "src": s} for p, s in files], "ir": True, "module_ir": True},
                        build="chk", timeout=60)
     if k != "resp":
@@ -92,6 +107,9 @@ def _run(case, rng, name, files, ok, expect, sub, opts, d):
     os.makedirs(src_dir)
     paths = []
     for p, s in files:
+        if p.startswith(("core:", "vendor:")):
+            paths.append(p)         # an embedded library named on the command line, not a file of the working directory
+            continue
         full = os.path.join(src_dir, p)
         os.makedirs(os.path.dirname(full), exist_ok=True)
         with open(full, "w", encoding="utf-8") as f:
@@ -318,6 +336,14 @@ def cases(tier, seed):
                 if silent:
                     opts["silent"] = True
                 out.append({"seed": seed, "i": i, "input": "valid_multi", "sub": sub, "opts": opts})
+                i += 1
+    # every failing input with the rendering options (each diagnostic kind has its own rendering code)
+    for name, (_files, ok, _exp) in INPUTS.items():
+        if ok:
+            continue
+        for sub in ("build", "emit", "run"):
+            for opts in ({"color": "never"}, {"arrows": "ascii"}, {"color": "never", "arrows": "ascii"}, {"color": "always"}):
+                out.append({"seed": seed, "i": i, "input": name, "sub": sub, "opts": dict(opts)})
                 i += 1
     n = 110 if tier == "quick" else 3000
     for _ in range(n):
